@@ -103,19 +103,27 @@ def sweepAux : List Row → Nat → Nat → List (Thr × Nat × Nat)
 def sweepSteps (rows : List Row) : List (Thr × Nat × Nat) :=
   (thrInitial, 0, 0) :: sweepAux (sortDesc rows) 0 0
 
-def stepCounts (nneg npos : Nat) (c0 c1 : Nat) (actual : Bool) : CM :=
+def stepCounts (nneg npos : Rat) (c0 c1 : Nat) (actual : Bool) : CM :=
   if actual then actualCounts c0 c1 nneg npos else flippedCounts c0 c1 nneg npos
 
-def stepPoints (ops : List (Bool × Bool)) (xm ym : Metric) (nneg npos : Nat) (s : Thr × Nat × Nat) : List Pt :=
+def stepPoints (ops : List (Bool × Bool)) (xm ym : Metric) (nneg npos : Rat) (s : Thr × Nat × Nat) : List Pt :=
   ops.map (fun (o : Bool × Bool) =>
     let cm := stepCounts nneg npos s.2.1 s.2.2 o.2
     { x := xm.eval cm, y := ym.eval cm, op := ⟨o.1, s.1⟩ })
 
 def operations (flip : Bool) : List (Bool × Bool) := if flip then operationsFlip else operationsNoFlip
 
-/-- the unsorted data frame of `_calculate_tradeoff_points` -/
+/-- `_get_counts(labels)` evaluated with the LIFTED expressions (`TradeoffSrc.countN / countPos / countNeg`, functions of
+    `len(labels)` and `sum(labels)`; the labels are 0/1, so `sum(labels)` is the number of positive rows) -/
+def srcCounts (rows : List Row) : Rat × Rat × Rat :=
+  let len : Rat := (rows.length : Rat)
+  let sum : Rat := (nPos rows : Rat)
+  (TradeoffSrc.countN len sum, TradeoffSrc.countPos len sum, TradeoffSrc.countNeg len sum)
+
+/-- the unsorted data frame of `_calculate_tradeoff_points`; `n_negative` / `n_positive` are the LIFTED `_get_counts`
+    expressions (`srcCounts`; `Threshold.srcCounts_eq`: they are the numbers of negative / positive rows) -/
 def rawPoints (flip : Bool) (xm ym : Metric) (rows : List Row) : List Pt :=
-  (sweepSteps rows).flatMap (stepPoints (operations flip) xm ym (nNeg rows) (nPos rows))
+  (sweepSteps rows).flatMap (stepPoints (operations flip) xm ym (srcCounts rows).2.2 (srcCounts rows).2.1)
 
 /-! ### `.sort_values(by=["x", "y"])` (stable) -/
 def colVal (c : TradeoffSrc.Col) (p : Pt) : Rat :=
@@ -137,13 +145,6 @@ def insertLex (p : Pt) : List Pt → List Pt
   | q :: qs => if lexLt q p then q :: insertLex p qs else p :: q :: qs
 
 def sortLex (pts : List Pt) : List Pt := pts.foldr insertLex []
-
-/-- `_get_counts(labels)` evaluated with the LIFTED expressions (`TradeoffSrc.countN / countPos / countNeg`, functions of
-    `len(labels)` and `sum(labels)`; the labels are 0/1, so `sum(labels)` is the number of positive rows) -/
-def srcCounts (rows : List Row) : Rat × Rat × Rat :=
-  let len : Rat := (rows.length : Rat)
-  let sum : Rat := (nPos rows : Rat)
-  (TradeoffSrc.countN len sum, TradeoffSrc.countPos len sum, TradeoffSrc.countNeg len sum)
 
 /-- the guard `if n_positive == 0 or n_negative == 0: raise ValueError(DEGENERATE_LABELS...)`: the two counts are the
     LIFTED `_get_counts` expressions, the connective is the LIFTED one (`TradeoffSrc.degenerateGuardIsOr`) -/
